@@ -344,14 +344,24 @@ func (u *Universe) concretise(tx Tx) []byte {
 	return u.sign(tx.S, &shmsg.MessageWithNonce{ChainId: []byte(chain), RandomNonce: tx.N, Msg: msg})
 }
 
-// forge puts the signature bytes of the victim's last transaction in front of a different payload
-// (a config vote with a fresh nonce): the signature does not cover the payload.
+// forge puts the signature bytes of a FIXED earlier transaction of the victim (a BlockSeen with a
+// nonce outside the range the driver uses) in front of a different payload (a config vote): the
+// signature does not cover the payload. The earlier transaction is decoded once by a throw-away
+// application instance in this process, as the chain would have done with a genuine transaction.
+// Everything about a forged transaction is a function of (victim, payload), so re-executions of a
+// history are byte-identical.
 func (u *Universe) forge(tx Tx) []byte {
-	sig := u.lastSig[tx.S]
+	sig := u.lastSig["forge:"+tx.S]
 	if sig == nil {
-		// the victim has not signed anything in this process yet: sign something now
-		u.sign(tx.S, &shmsg.MessageWithNonce{ChainId: []byte(ChainID), RandomNonce: 1 << 40, Msg: shmsg.NewBlockSeen(1)})
-		sig = u.lastSig[tx.S]
+		signed, err := shmsg.SignMessage(&shmsg.MessageWithNonce{ChainId: []byte(ChainID), RandomNonce: 1 << 40, Msg: shmsg.NewBlockSeen(1)}, u.priv[tx.S])
+		if err != nil {
+			panic(err)
+		}
+		sig = append([]byte{}, signed[:65]...)
+		u.lastSig["forge:"+tx.S] = sig
+		throwaway := app.NewShutterApp()
+		throwaway.InitChain(u.InitChainRequest())
+		throwaway.CheckTx(abcitypes.RequestCheckTx{Tx: []byte(base64.RawURLEncoding.EncodeToString(signed))})
 	}
 	msg := shmsg.NewBatchConfig(tx.Cfg.Act, u.addrs(tx.Cfg.Keypers), tx.Cfg.Thr, tx.Cfg.Idx)
 	body, err := proto.Marshal(&shmsg.MessageWithNonce{ChainId: []byte(ChainID), RandomNonce: tx.N + 1<<32, Msg: msg})
@@ -387,6 +397,5 @@ func (u *Universe) sign(tok string, m *shmsg.MessageWithNonce) []byte {
 	if err != nil {
 		panic(err)
 	}
-	u.lastSig[tok] = append([]byte{}, signed[:65]...)
 	return []byte(base64.RawURLEncoding.EncodeToString(signed))
 }
